@@ -77,8 +77,11 @@ def check(run, driver):
             G = nx.gnp_random_graph(n, 0.5, seed=seed, directed=True)
         elif kind == 2:  # acyclic
             G = nx.DiGraph(); G.add_nodes_from(range(n)); G.add_edges_from((i, j) for i in range(n) for j in range(i + 1, n) if rng.random() < 0.5)
-        elif kind == 3:  # cycle
-            G = nx.DiGraph(); G.add_nodes_from(range(n)); G.add_edges_from((i, (i + 1) % n) for i in range(n))
+        elif kind == 3:  # cycle (directed) or an undirected user-supplied graph
+            if it % 8 == 3:
+                G = nx.DiGraph(); G.add_nodes_from(range(n)); G.add_edges_from((i, (i + 1) % n) for i in range(n))
+            else:
+                G = nx.gnp_random_graph(n, 0.6, seed=seed, directed=False)
         cfg = dict(rho=rho, n=n, T=T, p=p, epsilon=eps, seed=seed)
         shim = NpShim()
         np.random.seed(seed % 1000); random.seed(seed % 77)
@@ -110,7 +113,7 @@ def check(run, driver):
             run.prop_fail("A has an entry outside the transposed graph", case, {"clause": "support", "generator": "linear"})
         # spectral radius
         rad = float(np.max(np.abs(np.linalg.eigvals(A)))) if n else 0.0
-        acyclic = nx.is_directed_acyclic_graph(Guse)
+        acyclic = nx.is_directed_acyclic_graph(Guse) if Guse.is_directed() else Guse.number_of_edges() == 0
         want = 0.0 if acyclic else rho
         # (acyclic: A is nilpotent because its support lies in an acyclic graph -- true radius 0; LAPACK's value for a
         #  nilpotent matrix is only accurate to eps^(1/n), so it is not judged numerically)
@@ -134,6 +137,28 @@ def check(run, driver):
         XY3, _ = S.linear_stochastic_gaussian_process(G=G, **cfg2)
         if not np.allclose(XY3 / (eps * 3.0), XY / eps, rtol=1e-10, atol=1e-300):
             run.prop_fail("series is not linear in epsilon", case, {"clause": "linear_in_eps", "generator": "linear"})
+    # ---- the same graph object REWIRED between two calls (node and edge counts unchanged) must behave like a fresh graph
+    for it in range(30 if thorough else 10):
+        n = int(rng.integers(3, 8)); seed = int(rng.integers(0, 10**6))
+        G = nx.gnp_random_graph(n, 0.5, seed=seed, directed=True)
+        if G.number_of_edges() == 0:
+            continue
+        S.linear_stochastic_gaussian_process(0.5, n=n, T=4, seed=seed, G=G); S.poisson_coupled_oscillators(n=n, T=4, seed=seed, G=G)
+        a, b = list(G.edges())[int(rng.integers(0, G.number_of_edges()))]
+        G.remove_edge(a, b)
+        cand = [(x, y) for x in range(n) for y in range(n) if x != y and not G.has_edge(x, y) and (x, y) != (a, b)]
+        if not cand:
+            G.add_edge(a, b); continue
+        G.add_edge(*cand[int(rng.integers(0, len(cand)))])
+        fresh = nx.DiGraph(); fresh.add_nodes_from(G.nodes()); fresh.add_edges_from(G.edges())
+        case = {"generator": "both", "n": n, "seed": seed, "edges_after_rewiring": sorted(G.edges())}
+        run.case("rewired-graph", [n, seed, sorted(G.edges())], True)
+        x1, a1 = S.linear_stochastic_gaussian_process(0.5, n=n, T=6, seed=seed, G=G); x2, a2 = S.linear_stochastic_gaussian_process(0.5, n=n, T=6, seed=seed, G=fresh)
+        y1, b1 = S.poisson_coupled_oscillators(n=n, T=6, seed=seed, G=G); y2, b2 = S.poisson_coupled_oscillators(n=n, T=6, seed=seed, G=fresh)
+        if not (np.array_equal(x1, x2) and np.array_equal(a1, a2)):
+            run.prop_fail("a user-supplied graph that was rewired between calls gives different data than a fresh graph with the same edges (stale state)", case, {"clause": "determinism", "generator": "linear"})
+        if not (np.array_equal(y1, y2) and np.array_equal(b1, b2)) or not np.array_equal(b1, nx.to_numpy_array(G)):
+            run.prop_fail("Poisson network: returned matrix is not the 0/1 adjacency of the graph used after the graph object was rewired between calls", case, {"clause": "adjacency", "generator": "poisson"})
     # ------------------------------------------------------------ Poisson network
     npoi = 120 if thorough else 40
     pooled = []
